@@ -115,7 +115,7 @@ def api_scripts(tier, rng, n=None):
         which = 1 if wildcard else 0
         L.append(f"poke_limit 1 {which} {H(ssrcs[0])} 0 {H(start)} 0")
         # the receiver's budget may also be the smaller one, so that srtp_unprotect itself reaches the hard limit
-        L.append(f"poke_limit 2 {which} {H(ssrcs[0])} 0 {H(max(1, start + rng.choice([0, 1, 2, -1, -2])))} 0")
+        L.append(f"poke_limit 2 {which} {H(ssrcs[0])} 0 {H(max(1, start + [0, 1, -1, -2, 2][k % 5]))} 0")
         rocs = {s: 0 for s in ssrcs}
         for i in range(10):
             s_ = rng.choice(ssrcs)
